@@ -31,7 +31,8 @@ LEVEL = "model_checking"
 
 PT = {k: getattr(PropertyType, k) for k in MC.KINDS}
 BH = {b: getattr(InvalidPropertyBehavior, b) for b in MC.BEHAVIORS}
-STATES = ("absent", "empty", "default", "padded", "nondefault")
+STATES = ("absent", "empty", "default", "padded", "nondefault", "nondefault2")
+NONDEFAULT2 = {"WARPS": "16.000=0.000", "BPMS": "0.000=0.000", "STOPS": "1.000=0", "COMBOS": "0.000=1,\n4.000=1", "LABELS": "0.000=song start", "SCROLLS": "0.000=1.0000"}
 NONDEFAULT = {
     "VERSION": "0.83", "WARPS": "4.000=1.000", "BPMS": "0.000=99.000", "STOPS": "1.000=0.500", "DELAYS": "2.000=0.250", "OFFSET": "0.123",
     "TIMESIGNATURES": "0.000=3=4", "TICKCOUNTS": "0.000=8", "COMBOS": "0.000=2", "SPEEDS": "0.000=2.000=1.000=0", "SCROLLS": "0.000=0.500",
@@ -49,6 +50,8 @@ def value_for(prop, state):
         return d
     if state == "padded":
         return "\n " + d + " \n"
+    if state == "nondefault2":
+        return NONDEFAULT2.get(prop, "another value")
     return NONDEFAULT.get(prop, "x.png" if MC.SIMFILE_KIND.get(prop) == MC.FILE_PATH else "nd")
 
 
